@@ -94,7 +94,8 @@ def run(ctx):
                 if i.startswith("diff"):
                     report("crash-state-loads-different:" + k, {"table": tdesc, "crash_state": c, "impl": i, "model": m, "line": n},
                            "a crash-state file (%s; K=op prefix, B=partial op, P=byte prefix) is loaded by the real reader as a DIFFERENT table" % c)
-            if i == m: bump("reader_agree_" + i.split()[0])
+            if m == "skip": bump("reader_impl_only")
+            elif i == m: bump("reader_agree_" + i.split()[0])
             elif i == "rej" and m.startswith("eq"): bump("reader_model_more_permissive")
             else: broken("reader verdicts differ", table=tdesc, state=c, impl=i, model=m)
             if len(ctx.coverage["samples"]) < 8 and i.startswith("eq") and k == "B": ctx.coverage["samples"].append({"table": tdesc, "state": c, "impl": i, "model": m})
